@@ -180,12 +180,12 @@ def _eval_single(inputs):
     xin, yin = (x, y) if inputs.get("as_list", False) is False else (x, y.tolist())
     try:
         dep.fit(xin, yin)
-    except RuntimeError:
-        return []  # documented outcome "if the fit fails": not applicable
     except NotImplementedError as e:
         if cons is not None and wname is not None:
-            return []  # weighted constrained fitting is documented as not implemented
+            return []  # weighted constrained fitting is declared not implemented by the library
         return [(case + "/exception", "fit must return", False, last_line(e))]
+    except RuntimeError:
+        return []  # documented outcome "if the fit fails": not applicable
     except Exception as e:
         return [(case + "/exception", "fitting a dependence function yields parameters", False, last_line(e))]
     checks = []
